@@ -27,7 +27,7 @@ theorem reachable_invariant (fuel : Nat) (ops : List WOp) : WInv (after fuel ops
 theorem components_only_at_occupied (fuel : Nat) (ops : List WOp) (k i : Nat) (ms : Masked)
     (hk : (after fuel ops).store? k = some ms) (hi : ms.mask.mem i = true) :
     (after fuel ops).ent.alloc.occ i = true :=
-  (reachable_invariant fuel ops).owned k ms hk i hi
+  ((reachable_invariant fuel ops).owned k ms hk i hi).resolve_right (fun h => h)
 
 /-- Every storage known to the world — registered explicitly, with an explicit storage, or by
     `SystemData::setup` — is in the meta table that `delete_components` walks. -/
@@ -69,7 +69,7 @@ theorem deletion_purges_everywhere (w : World) (h : WInv w) (es : List Entity)
   | false => rfl
   | true =>
     exfalso
-    have hoc := hinv.owned k ms hk' e.id hm
+    have hoc := (hinv.owned k ms hk' e.id hm).resolve_right (fun h => h)
     rw [halloc.1, hocc e.id] at hoc
     have hin : (killedIds es 0 r').contains e.id = true := by
       rw [← halloc.2]
@@ -94,7 +94,7 @@ theorem maintain_purges_before_queue (w : World) (h : WInv w) :
   cases hm : ms.mask.mem i with
   | false => rfl
   | true =>
-    have := hinv2.owned k ms hk i hm
+    have := (hinv2.owned k ms hk i hm).resolve_right (fun h => h)
     rw [hocc i, hi] at this
     simp at this
 
@@ -155,7 +155,7 @@ theorem new_entity_starts_empty (fuel : Nat) (w : World) (h : WInv w) (atomic dr
   rw [hstores k] at hk
   cases hm : ms.mask.mem e.id with
   | false => rfl
-  | true => have := h.owned k ms hk e.id hm; rw [hunocc] at this; cases this
+  | true => have := (h.owned k ms hk e.id hm).resolve_right (fun h => h); rw [hunocc] at this; cases this
 
 /-- **Every entity that is not being deleted keeps all of its components unchanged**: purging the
     entities `es` from a storage representing the map `m` leaves a storage representing `m` with
